@@ -29,4 +29,4 @@ def main(tier, seed):
 
 
 def replay(path):
-    return deps_run.replay(path, ("cp",))
+    return deps_run.replay(path)
